@@ -63,7 +63,7 @@ def brief(sc):
 class SimSpec:
     prop = None
     oracle_props = None
-    cases = {'quick': 320, 'thorough': 8000}
+    cases = {'quick': 320, 'thorough': 6400}
     rule = ''
     level_text = ''
     assumptions = ["SimPy's deterministic event order (time, priority, insertion id) is the only schedule explored; "
@@ -138,7 +138,7 @@ class SimSpec:
 
 class C05(SimSpec):
     prop = 'C05'
-    cases = {'quick': 400, 'thorough': 12000}
+    cases = {'quick': 400, 'thorough': 6400}
     rule = ("scenario strategy (feasible by construction; buffer modes roomy / serialising band; ~10% in-region "
             "tiering probe); non-trivial = at least one observation start was refused by the capacity check "
             "(buffer or machines) or one batch provisioning attempt was refused, and the run was judged against the bound; "
@@ -206,7 +206,7 @@ register(C05)
 
 class C01(SimSpec):
     prop = 'C01'
-    cases = {'quick': 400, 'thorough': 12000}
+    cases = {'quick': 400, 'thorough': 6400}
     rule = ("scenarios x {4 shipped pairings with injected delays, Adversary decision programs}; few machines relative to "
             "ready tasks; non-trivial = at least one scheduling round with more ready tasks than free machines, or at "
             "least one illegal proposal (busy-task / busy-ingest / duplicate / foreign-reserved / resubmission) made by the algorithm; "
@@ -252,7 +252,7 @@ class C01(SimSpec):
 
 class C03(SimSpec):
     prop = 'C03'
-    cases = {'quick': 400, 'thorough': 12000}
+    cases = {'quick': 400, 'thorough': 6400}
     rule = ("scenarios (all shipped pairings, heterogeneous bandwidths, zero and non-divisible edge volumes, static plans that "
             "pile successors on the predecessor's machine, injected delays); non-trivial = the executed run has at least one "
             "cross-machine edge with volume > 0 AND at least one same-machine edge; distinct = distinct canonical scenario JSON")
@@ -293,7 +293,7 @@ def concurrent_workflows(tr):
 
 class C04(SimSpec):
     prop = 'C04'
-    cases = {'quick': 400, 'thorough': 12000}
+    cases = {'quick': 400, 'thorough': 6400}
     rule = ("scenarios x {shipped pairings, Adversary programs} with injected delays; judged on runs that return from start(); "
             "non-trivial = completed run in which >= 2 workflows were in progress simultaneously, or a completed Adversary run "
             "with >= 1 illegal proposal; distinct = distinct canonical scenario JSON")
@@ -348,7 +348,7 @@ def with_rejection(sc_strategy):
 
 class C07(SimSpec):
     prop = 'C07'
-    cases = {'quick': 400, 'thorough': 12000}
+    cases = {'quick': 400, 'thorough': 6400}
     rule = ("scenarios in roomy and serialising-band buffer modes (overlapping observations, different rates/durations, "
             "timestep units, long and short workflows) + ~10% rejection class (an observation whose rate exceeds the hot "
             "buffer's max ingest rate) + ~10% in-region tiering probe; non-trivial = >= 2 observations resident in the hot "
@@ -433,7 +433,7 @@ def max_resident(tr):
 
 class C08(SimSpec):
     prop = 'C08'
-    cases = {'quick': 400, 'thorough': 12000}
+    cases = {'quick': 400, 'thorough': 6400}
     rule = ("scenarios with >= 2 observations (simultaneous / overlapping / back-to-back / gapped starts, array demands above and "
             "below the total, ingest demands against the limit, roomy and serialising-band buffers, all shipped pairings); "
             "non-trivial = at least one observation start was postponed AND at least one on-time start while the system was idle; "
@@ -472,7 +472,7 @@ class C08(SimSpec):
 
 class C09(SimSpec):
     prop = 'C09'
-    cases = {'quick': 400, 'thorough': 12000}
+    cases = {'quick': 400, 'thorough': 6400}
     rule = ("BatchPlanning+BatchProcessing scenarios (partitions 1-3, minimum, optional per-observation split, >= 2 observations "
             "so that workflows and ingests compete); non-trivial = >= 2 reservations live at once, or >= 1 refused provisioning "
             "round; distinct = distinct canonical scenario JSON")
@@ -526,7 +526,7 @@ def ingest_end_orders(tr):
 
 class C12(SimSpec):
     prop = 'C12'
-    cases = {'quick': 400, 'thorough': 12000}
+    cases = {'quick': 400, 'thorough': 6400}
     rule = ("scenarios with >= 2 observations, all shipped pairings; non-trivial = at least two ingests overlapped in time "
             "(classes report whether they ended in start order or reversed); every row of the per-timestep table is compared; "
             "distinct = distinct canonical scenario JSON")
@@ -589,7 +589,7 @@ class C12(SimSpec):
 
 class C13(SimSpec):
     prop = 'C13'
-    cases = {'quick': 360, 'thorough': 10000}
+    cases = {'quick': 360, 'thorough': 6400}
     rule = ("scenarios with observations starting at t=0 and at t>0 (the two process orders), all shipped pairings; half of the "
             "cases are additionally re-run paused at generated points and resumed to the same end; non-trivial = >= 2 "
             "observations with life-cycle transitions in the same timestep, or an observation starting at t>0 in a multi-"
@@ -663,7 +663,7 @@ class C13(SimSpec):
 
 class C17(SimSpec):
     prop = 'C17'
-    cases = {'quick': 400, 'thorough': 12000}
+    cases = {'quick': 400, 'thorough': 6400}
     rule = ("ListPlanning + DynamicSchedulingFromPlan scenarios with generated task->machine maps on heterogeneous clusters "
             "(many tasks piled on one machine), ingest and concurrent workflows contending; non-trivial = at least one scheduling "
             "round in which a ready task's planned machine was held while another machine was free (a forced wait); "
@@ -694,7 +694,7 @@ class C17(SimSpec):
 
 class C19(SimSpec):
     prop = 'C19'
-    cases = {'quick': 400, 'thorough': 12000}
+    cases = {'quick': 400, 'thorough': 6400}
     rule = ("simulation trajectories of all shipped pairings (queries evaluated at every end of step) plus cluster operation "
             "histories (ClusterOps state machine, query evaluated after every rule); non-trivial = trajectory in which the "
             "cluster query's truth and the buffer query's truth each took both values; distinct = distinct canonical scenario JSON")
